@@ -51,6 +51,34 @@ def closure_summary(f, path):
     return sorted((tuple(sorted(set(norm_cond(c) for c in s.conds))), show(norm(it.resolve(s, rv)))) for s, rv in res)
 
 
+def element_fn_summary(f, spec):
+    """summary of the function mapped over the elements: a closure, a crate-local function item, or a trait method item
+    (`V::into`, `V::try_from`), with the element named e / (e0, e1)"""
+    from norm import short_callee as _sc
+    if spec.startswith("closure(") and spec.endswith(")"):
+        path = spec[len("closure("):-1]
+        if path not in f.bodies:
+            path = path.split(", ")[0]
+        return closure_summary(f, path) if path in f.bodies else None
+    if not spec.startswith("fn "):
+        return None
+    name = spec[3:]
+    local = [d for d, b in f.bodies.items() if not b.get("parent") and b["arg_count"] == 1 and (_sc(d) == name or d == name)]
+    if len(local) == 1:
+        b = f.bodies[local[0]]
+        it = Interp(f)
+        st = State()
+        ty = f.ty(b["locals"][1]["ty"])
+        arg = ("tup", tuple(("sym", "e%d" % j) for j in range(len(ty["args"])))) if ty["k"] == "tuple" else ("sym", "e")
+        res = it.run(local[0], [arg], st)
+        return sorted((tuple(sorted(set(norm_cond(c) for c in s.conds))), show(norm(it.resolve(s, rv)))) for s, rv in res)
+    # `V::into` as a function item is `Value::from` of the element (Into is From with the sides swapped)
+    m = re.fullmatch(r"(\w+)::into<(\w+)>", name)
+    if m:
+        return [((), "%s::from<%s>(e)" % (m.group(2), m.group(1)))]
+    return [((), "%s(e)" % name)]
+
+
 def loop_elementwise(outs, src, item, wrap, cond=None, err=None):
     """the unrolled shape of `for x in SRC { out.push(conv(x)) }`: for k = 0, 1, .. items the result is a fresh Vec with
     conv(elem_i) pushed in order; with a fallible conversion the first failing element ends the loop with its error.
@@ -145,10 +173,10 @@ def run(res, f, tier):
         elif src.startswith("std::vec::Vec<") or "Map<" in src:
             tag = "Vec" if src.startswith("std::vec::Vec<") else "Map"
             r = outs[0][1] if len(outs) == 1 else ""
-            m = re.fullmatch(r"%s\(Map::collect\(IntoIter::map\(into_iter\(x\), closure\((.*)\)\)\)\)" % tag, r)
+            m = re.fullmatch(r"%s\(Map::collect\(IntoIter::map\(into_iter\(x\), (closure\(.*\)|fn .*)\)\)\)" % tag, r)
             good = bool(m)
             if m:
-                cs = closure_summary(f, m.group(1))
+                cs = element_fn_summary(f, m.group(1))
                 want = [((), "Value::from<V>(e)")] if tag == "Vec" else [((), "tuple(String::from<K>(e0), Value::from<V>(e1))")]
                 good = cs == want
             if not good and tag == "Vec":
@@ -191,10 +219,10 @@ def run(res, f, tier):
                     elif dst == "std::collections::HashMap<std::string::String, value::Value>":
                         good = r == "Ok(IntoIter::collect(into_iter(x.0)))"
                     else:
-                        m = re.fullmatch(r"Map::collect\(IntoIter::map\(into_iter\(x\.0\), closure\((.*)\)\)\)", r)
+                        m = re.fullmatch(r"Map::collect\(IntoIter::map\(into_iter\(x\.0\), (closure\(.*\)|fn .*)\)\)", r)
                         good = bool(m)
                         if m:
-                            cs = closure_summary(f, m.group(1))
+                            cs = element_fn_summary(f, m.group(1))
                             if want_tag == "Vec":
                                 good = cs == [((), "V::try_from<Value>(e)")]
                             else:
